@@ -139,6 +139,8 @@ struct Run<'a> {
     sticky_seen: bool,
     defer_drops: bool,
     bridge_dups: bool,
+    races: bool,
+    deferred_drop: bool,
 }
 
 enum StepEnd {
@@ -178,7 +180,16 @@ impl Run<'_> {
                     }
                     if let Event::Run(c) = ev {
                         self.shape = mix(self.shape, shape_of_cmd(c));
+                        self.races |= c.has_races();
                     }
+                    if self.deferred_drop && self.races && !matches!(ev, Event::Noop) {
+                        // the work enabled by the drop would run together with this call's own:
+                        // two actions in one settle of a program with races (only reachable by shrinking)
+                        cov.bump("discard:deferred_drop_not_flushed");
+                        self.discarded = true;
+                        return Ok(StepEnd::Stop);
+                    }
+                    self.deferred_drop = false;
                     if let Event::Abort(_) = ev {
                         self.faults += 1;
                         cov.bump("fault:abort_cmd");
@@ -239,6 +250,11 @@ impl Run<'_> {
                         cov.bump("skipped_action");
                         continue;
                     }
+                    if self.deferred_drop && self.races {
+                        cov.bump("discard:deferred_drop_not_flushed");
+                        self.discarded = true;
+                        return Ok(StepEnd::Stop);
+                    }
                     let real = match self.host.resolve(key, *v) {
                         Ok(o) => o,
                         Err(e) => {
@@ -292,6 +308,9 @@ impl Run<'_> {
                     if self.host.drop_req(key) {
                         self.faults += 1;
                         cov.bump("fault:drop");
+                        if !sel.is_direct() || self.defer_drops {
+                            self.deferred_drop = true;
+                        }
                         for m in self.cands.iter_mut() {
                             m.drop_req(key);
                         }
@@ -505,6 +524,8 @@ pub fn run_scenario_on(scn: &Scenario, sel: HostSel, ck: &Checks, cov: &mut Cov)
         sticky_seen: false,
         defer_drops: scn.defer_drops,
         bridge_dups: scn.bridge_dups,
+        races: false,
+        deferred_drop: false,
     };
 
     let mut stopped = false;
